@@ -987,5 +987,11 @@ def load_pure(ctx):
     return res
 
 
+# META update: declined clause 'identical traced rays' re-worded
+META['declined'] = [
+    'identical traced rays and paraxial values after reload as numbers (that loading performs no edit of the loaded prescription is decided: LOAD-PURE)' if _d.startswith('identical traced rays') else _d
+    for _d in META['declined']]
+
+
 RULES = [load_pure, c01_init_stores, derived_sync_rule, c12_arg_names, fresh_load, s1_keys, s2_roundtrip, s3_plain, s4_arity, s5_none, s6_optic,
          s7_kwargs, plain_store, file_wrapper]
